@@ -69,7 +69,8 @@ def finish(prop, tier, seed, nshards, results, inconclusive, wall, verif, write_
         path = os.path.join(rdir, _slug(key) + ".json")
         with open(path, "w") as fh:
             json.dump({"property": prop, "key": key, "detail": best["detail"], "case": best["case"],
-                       "occurrences": fcounts.get(key, 1), "tier": tier, "seed": seed}, fh, indent=1, default=repr)
+                       "occurrences": fcounts.get(key, 1), "tier": tier, "seed": seed,
+                       "hashseed": best.get("hashseed", "0")}, fh, indent=1, default=repr)
         violations.append((key, path, best["detail"]))
     for key, path, detail in violations[:25]:
         print("FAILURE key=%s n=%d detail=%s" % (key, fcounts.get(key, 1), json.dumps(detail, default=repr)[:600]))
